@@ -95,8 +95,8 @@ class Check:
         path = ""
         if replay_obj is not None and len(self.violations) < 20:
             os.makedirs(OUT_DIR, exist_ok=True)
-            path = os.path.join(OUT_DIR, f"{self.pid}-{key[:40]}-{len(self.violations)}-{os.getpid()}.json")
-            path = re.sub(r"[^A-Za-z0-9_./-]", "_", path)
+            name = re.sub(r"[^A-Za-z0-9_.-]", "_", f"{self.pid}-{key[:40]}-{len(self.violations)}-{os.getpid()}.json")
+            path = os.path.join(OUT_DIR, name)
             with open(path, "w") as f:
                 json.dump({"property": self.pid, "key": key, "what": what, "seed": self.seed, "tier": self.tier,
                            "case": replay_obj}, f)
